@@ -23,7 +23,7 @@ theorem bodies_fully_recognised :
     [SurfaceBodies.newSurface, SurfaceBodies.newSubSurface, SurfaceBodies.addChild, SurfaceBodies.writeCell, SurfaceBodies.fill,
      SurfaceBodies.render, SurfaceBodies.hasUnboundedWidth, SurfaceBodies.hasUnboundedHeight, SurfaceBodies.centerDraw,
      SurfaceBodies.textFindContainerSize, SurfaceBodies.richFindContainerSize, SurfaceBodies.textDrawSoftwrap,
-     SurfaceBodies.richDrawSoftwrap, SurfaceBodies.textDraw, SurfaceBodies.richDraw].all (fun b => !b.hasUnknown) = true := by
+     SurfaceBodies.richDrawSoftwrap, SurfaceBodies.textDraw, SurfaceBodies.richDraw, SurfaceBodies.buttonDraw].all (fun b => !b.hasUnknown) = true := by
   decide +kernel
 
 /-- **NewSurface**: `Surface{Size{width,height}, Widget, Buffer: make([]Cell, int(height)*int(width))}` is the model's
@@ -629,5 +629,54 @@ theorem textDraw_hard_is_drawText (R : Ro) (c : Ctx) (st : Nat) (scr : Screen)
   have h5 : (textMode true st).ell = [.lineTooWide, .reach] := by simp only [textMode]; decide
   simp only [drawText, h1, h2, h4, evalSz]
   rw [drawLines_congr (hardM (some st)) (textMode true st) rfl (by rw [h5]; rfl) rfl (by rw [h3]; rfl)]
+
+/-! ### Button.Draw
+
+The bounded-constraint panic; the style chosen by the tagless `switch` (translated as the if / else-if chain it is): mouseDown,
+else hover, else focused, else default; `l := text.New(b.Label); l.Style = style; center := center.Center{Child: l};
+s, err := center.Draw(ctx)`; `s.Widget = b; s.Fill(style)`.  `R.labelDraw st ctx` is that Center-around-the-label draw; with it
+being the model's (soft-wrapped Text in style `st`, centred: `centerDraw_body_eq_model` + `textDrawSoftwrap_is_drawText`), the
+executed body is the model's `drawWith … (.button st lines)`. -/
+
+theorem buttonDraw_body_eq (R : Ro) (c : Ctx) (scr : Screen) (md hv fc : Bool) (sa sb sc sd : Nat) (sid : Nat)
+    (h1 : R.fields "mouseDown" = some (.bool md)) (h2 : R.fields "hover" = some (.bool hv)) (h3 : R.fields "focused" = some (.bool fc))
+    (h4 : R.fields "Style" = some (.wid sid))
+    (h5 : R.fields "MouseDown" = some (.sty sa)) (h6 : R.fields "Hover" = some (.sty sb)) (h7 : R.fields "Focus" = some (.sty sc))
+    (h8 : R.fields "Default" = some (.sty sd)) (h9 : R.fields "Label" = some .text) :
+    (run R SurfaceBodies.buttonDraw SurfaceBodies.buttonDrawParams [.wid 0, .ctx c] scr).map (·.1)
+      = (if c.maxH == unbounded || c.maxW == unbounded then .error (.panic .explicit)
+         else match R.labelDraw (buttonStyle md hv fc sa sb sc sd) c with
+           | .error p => .error (.panic p)
+           | .ok s => .ok (.tup (.surf (fillStyle s (buttonStyle md hv fc sa sb sc sd))) .nil)) := by
+  by_cases g1 : (c.maxH == unbounded) = true
+  · simp [SurfaceBodies.buttonDraw, SurfaceBodies.buttonDrawParams, g1]
+  · by_cases g2 : (c.maxW == unbounded) = true
+    · simp [SurfaceBodies.buttonDraw, SurfaceBodies.buttonDrawParams, g1, g2]
+    · simp only [Bool.not_eq_true] at g1 g2
+      cases md <;> cases hv <;> cases fc <;>
+        (simp [SurfaceBodies.buttonDraw, SurfaceBodies.buttonDrawParams, g1, g2, h1, h2, h3, h4, h5, h6, h7, h8, h9, buttonStyle]
+         <;> (first | (cases R.labelDraw sa c <;> simp) | (cases R.labelDraw sb c <;> simp) | (cases R.labelDraw sc c <;> simp) | (cases R.labelDraw sd c <;> simp)))
+
+theorem buttonDraw_body_eq_model (R : Ro) (tm : Bool → Nat → TextMode) (rm : Bool → TextMode) (lines : List (List Cell))
+    (c : Ctx) (scr : Screen) (md hv fc : Bool) (sa sb sc sd : Nat) (sid : Nat)
+    (h1 : R.fields "mouseDown" = some (.bool md)) (h2 : R.fields "hover" = some (.bool hv)) (h3 : R.fields "focused" = some (.bool fc))
+    (h4 : R.fields "Style" = some (.wid sid))
+    (h5 : R.fields "MouseDown" = some (.sty sa)) (h6 : R.fields "Hover" = some (.sty sb)) (h7 : R.fields "Focus" = some (.sty sc))
+    (h8 : R.fields "Default" = some (.sty sd)) (h9 : R.fields "Label" = some .text)
+    (hL : R.labelDraw = fun st' c' =>
+      match drawText exactA (tm false st') { minW := 0, minH := 0, maxW := c'.maxW, maxH := c'.maxH } lines with
+      | .error e => .error e
+      | .ok ch => .ok (centerAround exactA c' ch)) :
+    (run R SurfaceBodies.buttonDraw SurfaceBodies.buttonDrawParams [.wid 0, .ctx c] scr).map (·.1)
+      = (match drawWith exactA tm rm (.button (buttonStyle md hv fc sa sb sc sd) lines) c with
+         | .ok s => .ok (.tup (.surf s) .nil)
+         | .error p => .error (.panic p)) := by
+  rw [buttonDraw_body_eq R c scr md hv fc sa sb sc sd sid h1 h2 h3 h4 h5 h6 h7 h8 h9, hL]
+  have hb : VaxisModel.Gen.SurfaceFacts.boundedPanicWidgets.contains "button.Button" = true := by decide
+  simp only [drawWith, boundedPanic, hb, Bool.true_and]
+  by_cases g : (c.maxH == unbounded || c.maxW == unbounded) = true
+  · simp [g]
+  · simp only [g]
+    cases drawText exactA (tm false (buttonStyle md hv fc sa sb sc sd)) { minW := 0, minH := 0, maxW := c.maxW, maxH := c.maxH } lines <;> simp
 
 end VaxisModel.Props.C14Body
